@@ -240,7 +240,7 @@ class Env(object):
         self.pending = None
 
 
-def run_impl(reqs, bg, chooser, lines=False, max_steps=6000, max_bg_loops=12):
+def run_impl(reqs, bg, chooser, lines=False, max_steps=6000, max_bg_loops=12, eof=False):
     """One execution of the real code.  chooser(list_of_choices, sched) -> choice.
     Returns dict(trace, stalls, hangs, outcome, fx-derived facts)."""
     fx = Fixture(reqs, bg, lines)
@@ -253,6 +253,7 @@ def run_impl(reqs, bg, chooser, lines=False, max_steps=6000, max_bg_loops=12):
     wake_step = {}   # thread name -> step of its last completed blocking operation (poll / condition wait)
     seen_stall = set()
     lost_seen = False
+    eof_done = False
     try:
         steps = 0
         while True:
@@ -264,7 +265,9 @@ def run_impl(reqs, bg, chooser, lines=False, max_steps=6000, max_bg_loops=12):
                 break
             th = thread_choices(s)
             cl = [c for c in th if c[0] is not fx.bg]
-            peer = fx.peer_choices()
+            peer = [] if eof_done else fx.peer_choices()
+            if eof and not eof_done and fx.sent_requests():
+                peer = peer + [("*eof*", -1)]
             bg_sleeping = fx.bg is not None and not fx.bg.done and fx.bg.pending.kind == "sleep"
             bg_can = [c for c in th if c[0] is fx.bg]
             if bg_sleeping and bg_loops < max_bg_loops:
@@ -311,6 +314,12 @@ def run_impl(reqs, bg, chooser, lines=False, max_steps=6000, max_bg_loops=12):
                 break
             choices = cl + bg_can + [(Env("peer", 1000 + i, (r, seq)), "go") for i, (r, seq) in enumerate(peer)]
             c = chooser(choices, s)
+            if isinstance(c[0], Env) and c[0].payload[0] == "*eof*":
+                # the peer goes away: the transport reports end-of-stream from now on
+                eof_done = True
+                fx.net.b._closed = True
+                trace.append({"t": "peer", "op": "eof"})
+                continue
             if isinstance(c[0], Env):
                 r, seq = c[0].payload
                 fx.peer_reply(r, seq)
@@ -336,7 +345,8 @@ def run_impl(reqs, bg, chooser, lines=False, max_steps=6000, max_bg_loops=12):
                 ev["recvlock"] = fx.owner(fx.conn._recvlock)
                 ev["condlock"] = fx.owner(fx.conn._recv_event._lock)
             trace.append(ev)
-        out = {"trace": trace, "stalls": stalls, "problems": problems, "outcome": dict(fx.outcome),
+        out = {"trace": trace, "stalls": stalls, "problems": problems, "outcome": dict(fx.outcome), "eof": eof_done,
+               "closed": bool(getattr(fx.conn, "closed", False)),
                "dispatch_count": dict(fx.dispatch_count), "seqs": [q for _, q in fx.sent_requests()],
                "white": fx.white, "excs": {n: repr(t.exc) for n, t in fx.clients.items() if t.exc is not None}}
         return out
@@ -390,6 +400,56 @@ def judge(res, reqs):
                     "processed (frame received by %s; waiter woke from a blocking call after the publication: %s; receive lock "
                     "held by another thread: %s)" % (t, where, r, rb, woke, held)))
     return c13, c14
+
+
+def judge_eof(res, reqs):
+    """C11 for a connection shared by threads: once the stream has ended nobody hangs, every request either got its own reply
+    or fails with EOFError, and the connection is closed"""
+    bad = []
+    for key, msg in res["problems"]:
+        if key in ("hang", "deadlock", "livelock", "lost-wakeup"):
+            bad.append(("eof-" + key, "after the stream ended: " + msg))
+    for t, rs in reqs.items():
+        for r in rs:
+            o = res["outcome"].get(r)
+            if o is None:
+                if not bad:
+                    bad.append(("eof-incomplete", "after the stream ended request %s of %s never completed" % (r, t)))
+            elif o[0] == "exc":
+                if not (o[1].startswith("EOFError") or (r.endswith("x") and o[1].startswith("ValueError"))):
+                    bad.append(("eof-wrong-exception", "request %s of %s failed with %s, not EOFError, when the stream ended" % (r, t, o[1])))
+            elif o[1] != tag(r):
+                bad.append(("eof-crossed", "request %s of %s completed with %r" % (r, t, o[1])))
+    for n, e in res["excs"].items():
+        bad.append(("eof-exception", "thread %s died with %s" % (n, e)))
+    # whether the connection's own `closed` flag is set is judged by the single-threaded runs of C11: here a request whose
+    # *send* hits the dead transport is told so by the write path, which closes the stream and leaves the flag to the next serve()
+    return bad
+
+
+def explore_eof(chk, cfgname, on_bad, n_random=60):
+    """the peer vanishes at an arbitrary moment while several threads use the connection"""
+    cfg = CONFIGS[cfgname]
+    rnd = random.Random(chk.seed * 7919 + sum(map(ord, cfgname)))
+    n = 0
+    for i in range(n_random):
+        if i % 3 == 2:
+            ch = pct_chooser(random.Random(rnd.random()), depth=rnd.choice([1, 2, 3]), horizon=rnd.choice([30, 60, 150]))
+        else:
+            ch = random_chooser(random.Random(rnd.random()), rnd.choice([0.0, 0.5, 0.85]))
+        res = run_impl(cfg["reqs"], cfg["bg"], ch, eof=True)
+        chk.evaluated()
+        n += 1
+        bad = judge_eof(res, cfg["reqs"])
+        chk.distinct(("eof-sched", cfgname, tuple((e.get("t"), e.get("op"), e.get("wake")) for e in res["trace"])))
+        if bad:
+            on_bad(bad, {"mode": "eof-indices", "config": cfgname, "indices": ch.record})
+        else:
+            chk.validated()
+        if n % 100 == 0:
+            gc.collect()
+    chk.cov["eof_runs_%s" % cfgname] = n
+    return n
 
 
 CONFIGS = {
